@@ -229,6 +229,7 @@ def run1 (c : Case) : CaseResult := Id.run do
   let buffer : Rat := match (c.get "param").find? (fun l => l[0]! == "shapeBufferDistance") with
     | some l => (num? (l[1]?.getD "0")).getD 0
     | none => 0
+  let buffered : Bool := buffer != 0
   let hyper := (c.get1 "hjunction").isSome
   let lee := cfgFlag c "lee"
   let lk := if lee then "lee" else "naive"
@@ -293,6 +294,11 @@ def run1 (c : Case) : CaseResult := Id.run do
             else none
           let (ca, cb) := sub.getD (a, b)
           let cls := if notInLeeModel ca cb then "class=sweep-model-blocks" else hitClass shapes i ca cb
+          -- with a buffer the visibility graph lives on the ROUTING polygons: a leg that is a dumped visibility edge is
+          -- classified by how it meets the routing polygon of the shape it enters
+          let isVisEdge := vis.any fun e => (e.p1 == ca && e.p2 == cb) || (e.p1 == cb && e.p2 == ca)
+          let cls := if cls == "class=other" && buffered && isVisEdge && hitClass rpolys i ca cb != "class=other"
+                     then s!"{hitClass rpolys i ca cb} (w.r.t. the routing polygon)" else cls
           let cls := if sub.isSome then s!"{cls} (by route leg {ptStr ca}-{ptStr cb})" else cls
           -- does an obstacle-free path exist at all?  (w.r.t. the routing polygons)
           let exclR := containing rpolys cn.src ++ containing rpolys cn.dst
